@@ -140,9 +140,47 @@ def firstReject (m : M) (i : Nat) : List Obs → Option Nat × M
     | some m' => firstReject m' (i + 1) os
     | none => (some i, m)
 
+/-! ### one request/acknowledgement exchange (mode F)
+
+`RequestResponse.request()` of `Tunnelling` / `DeviceConfiguration` for a request
+carrying `(ch, seq)`, sent at time 0 with `timeout`; `acks` are the
+acknowledgements of the awaited class delivered afterwards, in order of
+(distinct) arrival times. After the fix only an ACK repeating channel and
+counter ends the wait; its status decides between success and error. -/
+
+structure AckIn where
+  ch : Nat
+  seq : Nat
+  st : Nat
+  t : Nat
+  deriving DecidableEq, Repr
+
+inductive RROut where
+  | ok | error (st : Nat) | timeout
+  deriving DecidableEq, Repr
+
+def rrOutcome (ch seq timeout : Nat) : List AckIn → RROut
+  | [] => .timeout
+  | a :: as =>
+    if a.t < timeout ∧ a.ch = ch ∧ a.seq = seq then (if a.st = 0 then .ok else .error a.st)
+    else rrOutcome ch seq timeout as
+
+def parseAck (s : String) : Option AckIn :=
+  match parseNats s ":" with
+  | some [ch, seq, st, t] => some { ch, seq, st, t }
+  | _ => none
+
 -- DRIVER: tsend => XknxVerif.TunnelSend.handle
-/-- `monitor <c0> <s0> <obs,obs,…>` → `accept` | `reject@<i>` -/
+/-- `monitor <c0> <s0> <obs,obs,…>` → `accept` | `reject@<i>`;
+`rr <ch> <seq> <timeout> <ch:seq:st:t,…|->` → `ok` | `error:<st>` | `timeout` -/
 def handle : List String → String
+  | ["rr", ch, seq, timeout, acks] =>
+    let as? := if acks == "-" then some [] else (acks.splitOn ",").mapM parseAck
+    match ch.toNat?, seq.toNat?, timeout.toNat?, as? with
+    | some ch, some seq, some to, some as =>
+      match rrOutcome ch seq to as with
+      | .ok => "ok" | .error st => s!"error:{st}" | .timeout => "timeout"
+    | _, _, _, _ => "bad-op"
   | ["monitor", c0, s0, tr] =>
     match c0.toNat?, s0.toNat?, (tr.splitOn ",").mapM parseObs with
     | some c0, some s0, some os =>
